@@ -410,21 +410,28 @@ Qed.
 
 Lemma remove_all_close c pit bs rs rs' : rows_close c bs rs rs' -> Forall (row_prec c) rs ->
   match s_remove_all rnd pit rs, s_remove_all noround pit rs' with
-  | Some xs, Some xs' => rows_close c (map (fun b => b + 1) bs) xs xs' /\ Forall (row_prec c) xs
+  | Some xs, Some xs' => rows_close c (map (fun b => b + 1) bs) xs xs' /\ Forall (row_prec c) xs /\
+                         map ir_taxes xs = map ir_taxes rs
   | None, None => True
   | _, _ => False
   end.
 Proof.
-  intros H. induction H as [|b r r' bs rs rs' C E F B _ IH]; intros PR; cbn [s_remove_all map]; [split; constructor|].
+  intros H. induction H as [|b r r' bs rs rs' C E F B _ IH]; intros PR; cbn [s_remove_all map]; [repeat split; constructor|].
   inversion PR as [|? ? P1 P2]; subst.
   pose proof (remove_close c pit b r r' C E F P1) as K.
   destruct (s_remove rnd pit r) as [x|]; destruct (s_remove noround pit r') as [x'|]; try contradiction;
     specialize (IH P2); destruct (s_remove_all rnd pit rs) as [xs|]; destruct (s_remove_all noround pit rs') as [xs'|];
     try contradiction; try exact I.
-  destruct K as (K1 & K2 & K3 & K4). destruct IH as [I1 I2].
-  split; [constructor; try assumption|constructor; assumption].
+  destruct K as (K1 & K2 & K3 & K4). destruct IH as (I1 & I2 & I3).
+  split; [constructor; try assumption|split; [constructor; assumption|cbn [map]; rewrite K3, I3; reflexivity]].
   - rewrite K3. exact F.
   - lra.
+Qed.
+
+Lemma prepare_taxes c rs : map ir_taxes (map (s_prepare c) rs) = map ir_taxes rs.
+Proof.
+  induction rs as [|r rs IH]; cbn [map]; [reflexivity|]. rewrite IH. f_equal.
+  unfold s_prepare. destruct (ir_taxes r) eqn:T; [exact T|reflexivity].
 Qed.
 
 (* groups and categories: same shape whatever the rounding operator; distance of the bases *)
@@ -628,4 +635,171 @@ Proof.
   - destruct (cat_amounts_close c ct ct' H) as [A _]. cbv zeta in A. eapply cl_weaken; [exact A|nra].
   - destruct (s_find_cat code r); destruct (s_find_cat code r'); try contradiction; [|exact I].
     eapply cl_weaken; [exact IH|nra].
+Qed.
+
+(* ------------------------------------------------------------------------------------------ *)
+(* the document: classes, budgets, the bound                                                   *)
+(* ------------------------------------------------------------------------------------------ *)
+Definition simple_doc (d : doc) : Prop :=
+  d_currency_rule d = false /\ d_lines d <> [] /\
+  Forall (simple_line (d_cur d)) (d_lines d) /\
+  Forall simple_drow (d_discounts d) /\ Forall simple_drow (d_charges d) /\
+  Forall (fun l => Forall combo_ok (ln_taxes l)) (d_lines d) /\
+  Forall (fun x => Forall combo_ok (dd_taxes x)) (d_discounts d) /\
+  Forall (fun x => Forall combo_ok (dd_taxes x)) (d_charges d).
+
+(* budgets, in units of eps = half a unit of the (c+2)-th decimal = 1/200 minor unit *)
+Definition b_drow (d : doc) : Q := e_sum (d_lines d) + 1.
+Definition b_total1 (d : doc) : Q :=
+  e_sum (d_lines d) + (nQ (length (d_discounts d)) * b_drow d + 1) + (nQ (length (d_charges d)) * b_drow d + 1).
+Definition row_bounds (d : doc) : list Q :=
+  map e_line (d_lines d) ++ map (fun _ => b_drow d) (d_discounts d) ++ map (fun _ => b_drow d) (d_charges d).
+Definition row_taxes (d : doc) : list (list combo) :=
+  map ln_taxes (d_lines d) ++ map dd_taxes (d_discounts d) ++ map dd_taxes (d_charges d).
+Definition b_cats (d : doc) : Q :=
+  row_weight (map (fun b => b + 1) (row_bounds d)) (row_taxes d) + nQ (ncombos (row_taxes d)).
+Definition b_tax (d : doc) : Q := 2 * b_cats d.
+Definition b_total (d : doc) : Q := b_total1 d + (b_cats d + 1).
+Definition b_twt (d : doc) : Q := b_total d + (b_tax d + 1).
+Definition b_payable (d : doc) : Q := b_twt d + 1.
+
+Lemma line_rows_close c ls ils ils' : lines_close c ls ils ils' ->
+  Forall (fun l => Forall combo_ok (ln_taxes l)) ls ->
+  rows_close c (map e_line ls)
+    (map (fun p => mkIR (il_total (fst p)) (ln_taxes (snd p))) (combine ils ls))
+    (map (fun p => mkIR (il_total (fst p)) (ln_taxes (snd p))) (combine ils' ls)) /\
+  map ir_taxes (map (fun p => mkIR (il_total (fst p)) (ln_taxes (snd p))) (combine ils ls)) = map ln_taxes ls.
+Proof.
+  intros H F. induction H as [|l il il' ls ils ils' C W _ IH]; cbn [combine map]; [split; constructor|].
+  inversion F as [|? ? F1 F2]; subst. destruct (IH F2) as [I1 I2].
+  split; [constructor; cbn [ir_total ir_taxes fst snd]; try assumption; try reflexivity; apply e_line_nonneg|].
+  cbn [ir_taxes snd]. rewrite I2. reflexivity.
+Qed.
+
+Lemma drows_close c sum sum' B neg ds : Forall simple_drow ds -> Forall (fun x => Forall combo_ok (dd_taxes x)) ds ->
+  0 <= B -> cl (B * eps c) (fq sum) (fq sum') -> (c + 2 <= fp sum)%nat ->
+  let f := fun x : fig => if neg : bool then fneg x else x in
+  rows_close c (map (fun _ => B + 1) ds)
+    (map (fun p => mkIR (f (snd p)) (dd_taxes (fst p))) (map (fun x => (x, s_ddc rnd false c sum x)) ds))
+    (map (fun p => mkIR (f (snd p)) (dd_taxes (fst p))) (map (fun x => (x, s_ddc noround false c sum' x)) ds)) /\
+  map ir_taxes (map (fun p => mkIR (f (snd p)) (dd_taxes (fst p))) (map (fun x => (x, s_ddc rnd false c sum x)) ds))
+    = map dd_taxes ds.
+Proof.
+  intros F1 F2 BP CS W. cbv zeta.
+  induction F1 as [|x r H _ IH]; cbn [map]; [split; constructor|].
+  inversion F2 as [|? ? G1 G2]; subst. destruct (IH G2) as [I1 I2].
+  split; [constructor; cbn [ir_total ir_taxes fst snd]; try assumption; try reflexivity|].
+  - pose proof (s_ddc_close c sum sum' B x H BP CS W) as K.
+    destruct neg; [cbn [fneg fq]; apply cl_opp, K|exact K].
+  - lra.
+  - cbn [ir_taxes fst]. rewrite I2. reflexivity.
+Qed.
+
+Lemma nQ_le a b : (a <= b)%nat -> nQ a <= nQ b.
+Proof. intros H. unfold nQ. rewrite <- Zle_Qle. lia. Qed.
+
+Lemma rows_close_nonempty c bs rs rs' : rows_close c bs rs rs' -> bs <> [] -> rs <> [] /\ rs' <> [].
+Proof. intros H N. destruct H; [congruence|split; discriminate]. Qed.
+
+(* the specification with and without rounding, on a simple document *)
+Lemma spec_close d x : simple_doc d -> ideal d = Some x ->
+  exists y, exact d = Some y /\
+    let c := d_c d in
+    let P := (1 # 2) * unitQ c in
+    cl (e_sum (d_lines d) * eps c + P) (i_sum x) (i_sum y) /\
+    cl (b_total d * eps c + P) (i_total x) (i_total y) /\
+    cl (b_tax d * eps c + P) (i_tax x) (i_tax y) /\
+    cl (b_twt d * eps c + P) (i_twt x) (i_twt y) /\
+    cl (b_payable d * eps c + P) (i_payable x) (i_payable y).
+Proof.
+  intros (CR & NE & FL & FD & FC & TL & TD & TC). unfold ideal, exact, spec. rewrite CR.
+  set (c := d_c d).
+  destruct (s_lines_close c (d_cur d) (d_rates d) (d_lines d) FL) as (ils & ils' & E1 & E2 & LC).
+  rewrite E1, E2.
+  destruct (lines_sum_close c _ _ _ LC) as [CS W]. specialize (W NE).
+  set (sum := s_sum_figs c (map il_total ils)) in *. set (sum' := s_sum_figs c (map il_total ils')) in *.
+  pose proof (e_sum_nonneg (d_lines d)) as ESP. pose proof (eps_pos c) as EPS.
+  set (ES := e_sum (d_lines d)) in *.
+  (* document discounts and charges *)
+  pose proof (cl_sum_uniform _ _ _ (s_ddcs_close c sum sum' ES _ FD ESP CS W)) as HD.
+  pose proof (cl_sum_uniform _ _ _ (s_ddcs_close c sum sum' ES _ FC ESP CS W)) as HC.
+  rewrite !map_length in HD, HC.
+  set (dds := map (fun x => (x, s_ddc rnd false c sum x)) (d_discounts d)) in *.
+  set (dds' := map (fun x => (x, s_ddc noround false c sum' x)) (d_discounts d)) in *.
+  set (ccs := map (fun x => (x, s_ddc rnd false c sum x)) (d_charges d)) in *.
+  set (ccs' := map (fun x => (x, s_ddc noround false c sum' x)) (d_charges d)) in *.
+  rewrite <- !oQ_opt_sum with (c := c) in HD, HC.
+  (* rows *)
+  destruct (line_rows_close c _ _ _ LC TL) as [RL RLt].
+  destruct (drows_close c sum sum' ES true _ FD TD ESP CS W) as [RD RDt]. cbv zeta in RD, RDt.
+  destruct (drows_close c sum sum' ES false _ FC TC ESP CS W) as [RC RCt]. cbv zeta in RC, RCt.
+  fold dds dds' in RD, RDt. fold ccs ccs' in RC, RCt.
+  pose proof (rows_close_app _ _ _ _ _ _ _ RL (rows_close_app _ _ _ _ _ _ _ RD RC)) as RR.
+  fold (s_rows ils (d_lines d) dds ccs) in RR. fold (s_rows ils' (d_lines d) dds' ccs') in RR.
+  assert (RT : map ir_taxes (s_rows ils (d_lines d) dds ccs) = row_taxes d).
+  { unfold s_rows, row_taxes. rewrite !map_app, RLt, RDt, RCt. reflexivity. }
+  fold (b_drow d) in RR. fold (row_bounds d) in RR.
+  assert (BN : row_bounds d <> []).
+  { unfold row_bounds. destruct (d_lines d); [congruence|discriminate]. }
+  destruct (rows_close_nonempty _ _ _ _ RR BN) as [N1 N2].
+  destruct (s_rows ils (d_lines d) dds ccs) as [|r0 rs0] eqn:ER; [congruence|].
+  destruct (s_rows ils' (d_lines d) dds' ccs') as [|r0' rs0'] eqn:ER'; [congruence|].
+  destruct (prepare_close c _ _ _ RR) as [RP PP].
+  pose proof (remove_all_close c (d_pit d) _ _ _ RP PP) as RM.
+  destruct (s_remove_all rnd (d_pit d) (map (s_prepare c) (r0 :: rs0))) as [rows2|]; [|discriminate].
+  destruct (s_remove_all noround (d_pit d) (map (s_prepare c) (r0' :: rs0'))) as [rows2'|]; [|contradiction].
+  destruct RM as (R2 & P2 & T2). rewrite prepare_taxes, RT in T2.
+  destruct (cats_close c _ _ _ R2 P2) as (SH & CD & NG). rewrite T2 in CD, NG.
+  set (cts := s_cats rnd false c rows2) in *. set (cts' := s_cats noround false c rows2') in *.
+  pose proof (tax_close c cts cts' SH) as TX.
+  pose proof (nQ_le _ _ NG) as NGQ. pose proof (nQ_nonneg (ngroups cts)) as NGP.
+  pose proof (cdist_nonneg cts cts') as CDP.
+  assert (BCv : cdist cts cts' + nQ (ngroups cts) * eps c <= b_cats d * eps c).
+  { unfold b_cats. assert (K : nQ (ngroups cts) * eps c <= nQ (ncombos (row_taxes d)) * eps c) by (apply Qmult_le_compat_r; [exact NGQ|apply Qlt_le_weak, EPS]).
+    assert (CD' : cdist cts cts' <= row_weight (map (fun b => b + 1) (row_bounds d)) (row_taxes d) * eps c) by exact CD.
+    clear CD. revert K CD'. generalize (nQ (ngroups cts)) (nQ (ncombos (row_taxes d))) (cdist cts cts') (eps c)
+      (row_weight (map (fun b : Q => b + 1) (row_bounds d)) (row_taxes d)). intros n1 n2 cd e rw K CD. lra. }
+  intros H. injection H as <-. eexists. split; [reflexivity|]. cbv zeta.
+  cbn [i_sum i_total i_tax i_twt i_payable]. unfold noround.
+  set (ws := fp sum) in *.
+  (* total before taxes *)
+  set (t1 := fq sum - rnd ws (oQ (s_opt_sum c (map snd dds))) + rnd ws (oQ (s_opt_sum c (map snd ccs)))).
+  set (t1' := fq sum' - oQ (s_opt_sum c (map snd dds')) + oQ (s_opt_sum c (map snd ccs'))).
+  assert (H1 : cl (b_total1 d * eps c) t1 t1').
+  { unfold t1, t1', b_total1. fold ES. fold (b_drow d).
+    setoid_replace ((ES + (nQ (length (d_discounts d)) * b_drow d + 1) + (nQ (length (d_charges d)) * b_drow d + 1)) * eps c)
+      with (ES * eps c + (nQ (length (d_discounts d)) * ((ES + 1) * eps c) + eps c)
+            + (nQ (length (d_charges d)) * ((ES + 1) * eps c) + eps c)) by (unfold b_drow; fold ES; ring).
+    apply cl_plus; [apply cl_minus; [exact CS|]|]; apply (cl_rnd_w c); assumption. }
+  (* included tax *)
+  set (inc := match match d_pit d with [] => None | _ :: _ => match s_find_cat (d_pit d) cts with
+               | Some ct => Some (cat_amount rnd false c ct) | None => None end end with
+              | Some ti => rnd ws ti | None => 0 end).
+  set (inc' := match match d_pit d with [] => None | _ :: _ => match s_find_cat (d_pit d) cts' with
+               | Some ct => Some (cat_amount noround false c ct) | None => None end end with
+              | Some ti => ti | None => 0 end).
+  assert (HI : cl ((b_cats d + 1) * eps c) inc inc').
+  { unfold inc, inc'. pose proof (nQ_nonneg (ncombos (row_taxes d))).
+    assert (Z : cl ((b_cats d + 1) * eps c) 0 0) by (eapply cl_weaken; [apply cl_refl|nra]).
+    destruct (d_pit d) as [|b0 bs0]; [exact Z|].
+    pose proof (find_cat_close c (b0 :: bs0) cts cts' SH) as K.
+    destruct (s_find_cat (b0 :: bs0) cts); destruct (s_find_cat (b0 :: bs0) cts'); try contradiction; [|exact Z].
+    setoid_replace ((b_cats d + 1) * eps c) with (b_cats d * eps c + eps c) by ring.
+    apply (cl_rnd_w c); [exact W|]. eapply cl_weaken; [exact K|exact BCv]. }
+  assert (HT : cl (b_total d * eps c) (t1 - inc) (t1' - inc')).
+  { unfold b_total. setoid_replace ((b_total1 d + (b_cats d + 1)) * eps c) with (b_total1 d * eps c + (b_cats d + 1) * eps c) by ring.
+    apply cl_minus; assumption. }
+  assert (HX : cl (b_tax d * eps c) (s_tax rnd false c cts) (s_tax noround false c cts')).
+  { eapply cl_weaken; [exact TX|]. unfold b_tax. lra. }
+  assert (HW : cl (b_twt d * eps c) (t1 - inc + rnd ws (s_tax rnd false c cts)) (t1' - inc' + s_tax noround false c cts')).
+  { unfold b_twt. setoid_replace ((b_total d + (b_tax d + 1)) * eps c) with (b_total d * eps c + (b_tax d * eps c + eps c)) by ring.
+    apply cl_plus; [exact HT|]. apply (cl_rnd_w c); assumption. }
+  assert (HP : cl (b_payable d * eps c)
+                  (t1 - inc + rnd ws (s_tax rnd false c cts) + match d_rounding d with Some r => rnd ws (toQ r) | None => 0 end)
+                  (t1' - inc' + s_tax noround false c cts' + match d_rounding d with Some r => toQ r | None => 0 end)).
+  { unfold b_payable. setoid_replace ((b_twt d + 1) * eps c) with (b_twt d * eps c + eps c) by ring.
+    apply cl_plus; [exact HW|]. destruct (d_rounding d) as [r|].
+    - setoid_replace (eps c) with (0 + eps c) by ring. apply (cl_rnd_w c); [exact W|apply cl_refl].
+    - eapply cl_weaken; [apply cl_refl|lra]. }
+  split; [apply cl_rnd, CS|]. split; [apply cl_rnd, HT|]. split; [apply cl_rnd, HX|]. split; [apply cl_rnd, HW|apply cl_rnd, HP].
 Qed.
